@@ -5,6 +5,7 @@ import VlsModel.Drv.Common
 Line-protocol driver for the payments model (property C06).
 
   init <nch> <max_routing_fee_msat> <max_feerate_percentage> <cltv_delta> <velocity limit_msat> h|d|u
+  keysend|invoice … neg                           the approver declines (NegativeApprover)
   keysend <h> <amount_msat> <now>                 answers: true | false (velocity) | err | panic
   invoice <h> <amount_msat> <now> <expiry> <tag>  a BOLT-11 invoice issued at <now>
   cpsign <c> new|retry <offered> <received>       HTLC lists: `-` or `h:value_sat:cltv,...`
@@ -63,6 +64,12 @@ def commitS (acc : Bool) : String := if acc then "ok" else "err"
 def itype? : String → Option Velocity.IntervalType
   | "h" => some .hourly | "d" => some .daily | "u" => some .unlimited | _ => none
 
+/-- a proposal the approver declines -/
+def decline (s : St) (h : Hash) (inv : Invoice) : St × String :=
+  let cls := match s.node.proposeDeclined h inv with
+    | .same => "true" | .different => "err" | _ => "false"
+  run s (.decline h inv) (fun _ => cls)
+
 /-- an approval: the answer class comes from `Node.approve` (Ok(true) / Ok(false) / Err), the state from `Node.step` -/
 def approve (s : St) (h : Hash) (inv : Invoice) (now : Nat) : St × String :=
   let cls := match (s.node.approve h inv now).2 with
@@ -85,6 +92,16 @@ def step (s : St) (toks : List String) : St × String :=
     | some h, some amt, some now =>
       approve s h ⟨amt, now + Gen.Payments.keysendExpiry + Gen.Payments.keysendPruneTime, [0, h]⟩ now
     | _, _, _ => (s, "bad-op")
+  | ["keysend", h, amt, now, "neg"] =>
+    match nat? h, nat? amt, nat? now with
+    | some h, some amt, some now =>
+      decline s h ⟨amt, now + Gen.Payments.keysendExpiry + Gen.Payments.keysendPruneTime, [0, h]⟩
+    | _, _, _ => (s, "bad-op")
+  | ["invoice", h, amt, ts, exp, id, "neg"] =>
+    match nat? h, nat? amt, nat? ts, nat? exp, nat? id with
+    | some h, some amt, some ts, some exp, some id =>
+      decline s h ⟨amt, ts + exp + Gen.Payments.invoicePruneTime, [1, amt, ts, exp, id]⟩
+    | _, _, _, _, _ => (s, "bad-op")
   | ["invoice", h, amt, ts, exp, id] =>
     match nat? h, nat? amt, nat? ts, nat? exp, nat? id with
     | some h, some amt, some ts, some exp, some id =>
